@@ -17,5 +17,8 @@ def fill(add, not_yet):
     add("C20", "Lean 4 theorems about recursive merge and sorted fragment loading + exact correspondence with Config.merge/load_conf under every directory-listing permutation + file round-trip oracles",
         "Proof on the tree model (merge laws, order independence of the sorted load, counter-witness for unsorted loading); load_conf is run with the conf.d enumeration substituted by every permutation and compared exactly with the model; builders and BRAIN files are compared field by field with the generating values.",
         STD_NOTE + "YAML, scipy.io and the OS are external; HDF5 (v7.3) files cannot be exercised (h5py absent).")
-    for p in ["C02","C03","C04","C05","C06","C07","C08","C09","C10","C11","C12","C14","C16","C17","C18","C19"]:
+    add("C18", "wiring table regenerated from make_views' real output on every run and re-checked by the Lean kernel (decide) against the wiring model + Lean theorems (reverse twice, reciprocal involution, view ordering/uniqueness) + exact correspondence of make_viewnames / make_paths / Path.reverse",
+        "Proof by translation: the views arim returns for every set-up (immersion, 8 contact variants, 0-2 reflections, unique on/off) are translated to a Lean table and `wired_ok` is re-proved by the kernel on every run, so a wiring change breaks the proof itself; general theorems cover name ordering, reciprocity classes and path reversal; an independent Python oracle restates the wiring rules.",
+        STD_NOTE + "The translator (harness/c18.py: object identity -> wall/material names) is trusted.")
+    for p in ["C02","C03","C04","C05","C06","C07","C08","C09","C10","C11","C12","C14","C16","C17","C19"]:
         not_yet[p] = "check not built yet in this round (work in progress; Lean-4 proof + correspondence planned, see DESIGN.md section 6)"
